@@ -822,3 +822,85 @@ fn dom_with(args: &[String], expanded: bool) -> String {
     }
     out.join(" | ")
 }
+
+// foreign <text>: the same text read twice gives two documents whose nodes carry the SAME ids.  Every mutator of the first
+// document is called with a node of the second one where its own node should stand.  Answer: `call=outcome` pairs separated by
+// `;`, then `|`, then `same` if both documents print as before and the first one still satisfies the tree invariant.
+pub fn foreign(args: &[String]) -> String {
+    let text = match args.first() {
+        Some(t) => decode(t),
+        None => return "bad-args".to_string(),
+    };
+    let (d1, d2) = match (XmlDocument::from_raw(&text), XmlDocument::from_raw(&text)) {
+        (Ok(("", a)), Ok(("", b))) => (a, b),
+        _ => return "err:doc".to_string(),
+    };
+    let before = (format!("{}", d1), format!("{}", d2));
+    let (r1, r2) = match (d1.document_element(), d2.document_element()) {
+        (Ok(a), Ok(b)) => (a, b),
+        _ => return "err:doc".to_string(),
+    };
+    let cls = |r: Result<String, xml_dom::error::Error>| -> String {
+        match r {
+            Ok(s) => s,
+            Err(er) => format!("err:{}", err_class(&er)),
+        }
+    };
+    let ok = |_: XmlNode| "ok".to_string();
+    let mut out: Vec<String> = vec![];
+    let mut call = |name: &str, f: &mut dyn FnMut() -> String| {
+        let r = catch_unwind(AssertUnwindSafe(|| f())).unwrap_or_else(|_| "panic".to_string());
+        out.push(format!("{}={}", name, r));
+    };
+    // the counterparts: the root of the other document, its first child, a node the other document made
+    let k1 = r1.first_child();
+    let k2 = r2.first_child();
+    let made2 = d2.create_element("made").ok().map(|e| e.as_node());
+    let made1 = d1.create_element("made").ok().map(|e| e.as_node());
+    if let (Some(made2), Some(made1)) = (made2.clone(), made1.clone()) {
+        // newChild of another document
+        call("append(new2)", &mut || cls(r1.append_child(made2.clone()).map(ok)));
+        call("insert(new2,-)", &mut || cls(r1.insert_before(made2.clone(), None).map(ok)));
+        call("doc.append(new2)", &mut || cls(d1.append_child(d2.create_comment("c").as_node()).map(ok)));
+        if let Some(k1) = k1.clone() {
+            call("insert(new2,own)", &mut || cls(r1.insert_before(made2.clone(), Some(&k1)).map(ok)));
+            call("replace(new2,own)", &mut || cls(r1.replace_child(made2.clone(), &k1).map(ok)));
+        }
+        // refChild / oldChild of another document (same id as the own child)
+        if let Some(k2) = k2.clone() {
+            call("insert(own,ref2)", &mut || cls(r1.insert_before(made1.clone(), Some(&k2)).map(ok)));
+            call("replace(own,old2)", &mut || cls(r1.replace_child(made1.clone(), &k2).map(ok)));
+            call("remove(old2)", &mut || cls(r1.remove_child(&k2).map(ok)));
+        }
+        call("doc.remove(root2)", &mut || cls(d1.remove_child(&r2.as_node()).map(ok)));
+        call("remove(made2)", &mut || cls(r1.remove_child(&made2).map(ok)));
+    }
+    // attributes
+    if let Ok(a2) = d2.create_attribute("zz") {
+        let a2c = a2.clone();
+        call("setAttributeNode(a2)", &mut || cls(r1.set_attribute_node(a2c.clone()).map(|_| "ok".to_string())));
+        if let Some(map) = r1.as_node().attributes() {
+            let a2d = a2.clone();
+            call("setNamedItem(a2)", &mut || cls(map.set_named_item(a2d.clone()).map(|_| "ok".to_string())));
+        }
+    }
+    if let Some(map2) = r2.as_node().attributes() {
+        if let Some(own2) = map2.item(0) {
+            let o = own2.clone();
+            call("removeAttributeNode(attr2)", &mut || cls(r1.remove_attribute_node(o.clone()).map(|_| "ok".to_string())));
+            if let Some(map1) = r1.as_node().attributes() {
+                if let Some(own1) = map1.item(0) {
+                    if let (Some(t2), Some(_t1)) = (own2.as_node().first_child(), own1.as_node().first_child()) {
+                        call("attr.remove(item2)", &mut || cls(own1.remove_child(&t2).map(ok)));
+                        call("attr.append(item2)", &mut || cls(own1.append_child(t2.clone()).map(ok)));
+                    }
+                }
+            }
+        }
+    }
+    let after = (format!("{}", d1), format!("{}", d2));
+    let st = St { doc: d1.clone(), handles: vec![], by_id: HashMap::new(), expanded: false };
+    let mon = monitors(&st, &[]);
+    let same = if before == after && mon.starts_with("inv=ok") { "same".to_string() } else { format!("CHANGED {} -> {} / {}", e(&before.0), e(&after.0), mon) };
+    format!("{} | {}", out.join(";"), same)
+}
